@@ -63,6 +63,7 @@ func buildFamily(family, tier string, seed int64) []*Scenario {
 		out = append(out, g.famTwoLevel("dy", []string{"minitems", "maxitems"}, collTypes)...)
 		out = append(out, g.famCollCombo("dc")...)
 		out = append(out, g.famSpelled("ds", []string{"minitems", "maxitems"}, []*TypeX{collTypes[0], collTypes[5], collTypes[2]})...)
+		out = append(out, g.famImported("d")...)
 	case "c05":
 		ts := append([]*TypeX{stringT}, numeric...)
 		rep(n(2, 90), func(i int) []*Scenario { return g.famMatrix(fmt.Sprintf("e%03d", i), []string{"enum"}, ts, 12, true) })
